@@ -18,9 +18,10 @@ CXX_COMMON = ['-std=c++17', '-fno-exceptions', '-fno-rtti', '-fno-access-control
               '-DASMJIT_STATIC', '-DASMJIT_VERIF', '-I' + REPO, '-I' + INC, '-w']
 # Front end only (-disable-llvm-passes): overriding/stubbing happens at link time, *before* any inlining.
 FE_FLAGS = ['-O1', '-Xclang', '-disable-llvm-passes', '-fno-pic', '-fno-pie', '-fno-vectorize', '-fno-slp-vectorize', '-fno-unroll-loops']
-UBSAN_TRAP = ['-fsanitize=shift,signed-integer-overflow,integer-divide-by-zero,array-bounds', '-fsanitize-trap=all']
+UBSAN_TRAP = ['-fsanitize=shift-exponent,signed-integer-overflow,integer-divide-by-zero,array-bounds', '-fsanitize-trap=all']
 CBMC_BASE = ['--unwinding-assertions', '--drop-unused-functions', '--no-undefined-shift-check', '--no-signed-overflow-check',
              '--no-malloc-may-fail', '--no-pointer-primitive-check', '--no-built-in-assertions', '--sat-solver', 'cadical', '--verbosity', '6']
+SLICE = ['--slice-formula']   # main runs only: a sliced trace would drop nondet values outside the cone and misalign the replay stream
 
 EXIT_OK, EXIT_VIOLATION, EXIT_BROKEN = 0, 1, 2
 
@@ -316,7 +317,7 @@ class Check:
             res['validation'] = dict(status='ERROR', error=str(e)[:500])
         m = self.pool.acquire(h.mem_gb)
         try:
-            r = run(self.cbmc_cmd(h), timeout=h.timeout, mem_gb=h.mem_gb)
+            r = run(self.cbmc_cmd(h, SLICE), timeout=h.timeout, mem_gb=h.mem_gb)
         finally:
             self.pool.release(m)
         res.update(wall_s=round(r['wall'], 2), rss_mb=r['rss_mb'], rc=r['rc'])
@@ -363,9 +364,11 @@ class Check:
 
     # ------------------------------------------------------------------ counterexample -> replay
     def extract_stream(self, h, prop_id):
-        m = self.pool.acquire(h.mem_gb)
+        # the unsliced trace run is 3-5x dearer than the sliced main run; it only happens when something fails
+        big = min(h.mem_gb * 5, 30)
+        m = self.pool.acquire(big)
         try:
-            r = run(self.cbmc_cmd(h, ['--property', prop_id, '--trace']), timeout=h.timeout * 2, mem_gb=h.mem_gb)
+            r = run(self.cbmc_cmd(h, ['--property', prop_id, '--trace']), timeout=h.timeout * 2, mem_gb=big)
         finally:
             self.pool.release(m)
         vals = []
@@ -505,16 +508,30 @@ def main(argv):
             broken.append('%s: %s' % (h.fn, r['why']))
         elif r['verdict'] == 'FAIL':
             kf = chk.known_open.get(h.known) if h.known else None
+            todo = []
             for f in r['failed']:
                 if kf and any(s in f['desc'] for s in kf.get('asserts', [])):
                     f['disposition'] = 'known-finding ' + h.known
                     continue
-                ok, path, detail = chk.confirm(h, f, rdir)
+                todo.append(f)
+            # replay at most 3 distinct counterexamples per harness (each costs one more solver run), in parallel
+            def do_confirm(f, h=h):
+                try:
+                    return chk.confirm(h, f, rdir)
+                except Exception as e:
+                    return False, None, 'replay machinery failed: %s' % str(e)[:300]
+            with ThreadPoolExecutor(max_workers=3) as ex:
+                outs = list(ex.map(do_confirm, todo[:3]))
+            for f, (ok, path, detail) in zip(todo[:3], outs):
                 f['replay'] = path; f['replay_detail'] = detail; f['confirmed'] = ok
                 if ok:
                     violations.append((h, f, path))
                 else:
                     broken.append('%s: counterexample for [%s] %s not reproduced natively: %s (%s)' % (h.fn, f['id'], f['desc'], detail, path))
+            for f in todo[3:]:
+                f['replay_detail'] = 'not replayed (more than 3 failing assertions in this harness)'
+                if not any(ok for (ok, _, _) in outs):
+                    broken.append('%s: [%s] %s failed (not replayed)' % (h.fn, f['id'], f['desc']))
             if kf and any(f.get('disposition') for f in r['failed']):
                 known_lines.append('KNOWN-FINDING: property=%s %s: %s' % (pid, h.known, kf['what']))
         if h.known and r['verdict'] == 'PASS' and h.known in chk.known_open:
